@@ -364,6 +364,17 @@ type Query struct {
 
 func (f *Factory) Script(q *Query, wantModel bool) string {
 	e := &emitter{f: f, abstract: q.Abstract, names: map[*Term]string{}, declared: map[string]bool{}}
+	for _, m := range rePreDecl.FindAllStringSubmatch(q.Preamble, -1) {
+		if m[1] == "declare-sort" {
+			e.declared["sort:"+m[2]] = true
+		} else {
+			e.declared["fn:"+smtName(m[2])] = true
+			e.declared[smtName(m[2])] = true
+		}
+	}
+	if strings.Contains(q.Preamble, "define-fun-rec") || strings.Contains(q.Preamble, "forall") {
+		e.usesQ = true
+	}
 	var asserts []string
 	for _, h := range q.Hyps {
 		if h.IsTrue() {
@@ -495,6 +506,7 @@ func runOne(ctx context.Context, sp solverSpec, script string, dir string, name 
 	return res
 }
 
+var rePreDecl = regexp.MustCompile(`\((declare-sort|declare-fun|define-fun-rec|define-fun)\s+(\S+)`)
 var reDef = regexp.MustCompile(`\(define-fun\s+(\S+)\s+\(\)\s+Int\s+(\(-\s*\d+\)|-?\d+)\)`)
 
 func parseModel(out string) map[string]*big.Int {
